@@ -190,6 +190,16 @@ class AesMachine(lenrun.Machine):
                 self.mput16(("p", a[1], a[2] + 16 * j), v if not masked else other_vals([v, self.mget16(("p", a[1], a[2] + 16 * j))]))
             return
         if not vdefs:
+            # a tweak half that travels from a vector register into a general register (movq / pextrq)
+            if i.mem < 0 and re.match(r"^V?(MOVPQIto64|PEXTRQ|MOVPQI2QI)", op) and vuses:
+                gd = [PARENT[x] for x in defs if x in PARENT]
+                e = self.tw_exp(self.lanes_of(vuses[0])[0])
+                gtab = self.__dict__.setdefault("gt", {})
+                for g in gd:
+                    if e is not None:
+                        gtab[g] = e
+                    else:
+                        gtab.pop(g, None)
             return
         d = vdefs[0]
         nl = nlanes(d)
@@ -278,6 +288,15 @@ class AesMachine(lenrun.Machine):
             s2 = srcl[1] if len(srcl) > 1 else ((mem_l + [BOTV] * 4) if mem_l is not None else s1)
             new = [s1[sel & 3], s1[(sel >> 2) & 3], s2[(sel >> 4) & 3], s2[(sel >> 6) & 3]] if nl == 4 else [s1[sel & 1], s2[(sel >> 1) & 1]]
             self.setv(d, new, vex=True)
+            return
+        # a tweak half that travels from a general register straight into a vector register (movq / pinsrq)
+        gtags = self.__dict__.get("gt", {})
+        gsrc = [gtags[PARENT[u]] for u in uses if u in PARENT and PARENT[u] in gtags]
+        if gsrc and i.mem < 0 and re.match(r"^V?(MOV64toPQI|MOVQI2PQI|PINSRQ|MOVDI2PDI)", op):
+            base = srcl[0][0] if (srcl and "PINSR" in op) else PLAIN
+            data = frozenset(base[2]) | frozenset(("TW", e) for e in gsrc)
+            st_ = "dd" if base[0] in (None, "dd", "done") and not base[1] else BOT
+            self.setv(d, [(st_, E, data)], vex=vex)
             return
         if op.startswith(("VALIGNQ", "VALIGND")) and len(srcl) >= 2 and i.mem < 0 and not masked:
             im = [o[1] for o in i.ops if o[0] == "i"]
@@ -442,15 +461,23 @@ class AesMachine(lenrun.Machine):
                 return True
         defs = [PARENT.get(d) for d in list(i.explicit_defs()) + list(i.idefs) if d in PARENT]
         new = {}
+        wflags = "EFLAGS" in i.idefs or "EFLAGS" in i.explicit_defs()
+        cf_from = self.__dict__.get("tw_cf")
         if i.mem < 0:
             if op in ("SHL64r1",) or (op == "SHL64ri" and i.imm(2) == 1) or (op == "ADD64rr" and i.reg(1) == i.reg(2)):
                 r = PARENT.get(i.reg(0))
                 if r in gt:
                     new[r] = gt[r] + 1
+                    self.tw_cf = gt[r]           # CF now holds the bit shifted out of a tweak half at this exponent
+                    wflags = False
             elif op == "ADC64rr" and i.reg(1) == i.reg(2):
                 r = PARENT.get(i.reg(0))
                 if r in gt:
                     new[r] = gt[r] + 1
+                    if cf_from != gt[r]:
+                        self.viol.append((i, "the high half of the tweak is doubled with a carry flag that does not come from the shift of its low half (an instruction in between rewrote the flags): the bit that moves from the low to the high half is lost"))
+                    self.tw_cf = None
+                    wflags = False
             elif op == "XOR64rr" and i.reg(1) != i.reg(2):
                 r = PARENT.get(i.reg(0))
                 if r in gt and PARENT.get(i.reg(2)) not in gt:
@@ -458,6 +485,8 @@ class AesMachine(lenrun.Machine):
             elif op == "MOV64rr":
                 if PARENT.get(i.reg(1)) in gt:
                     new[PARENT.get(i.reg(0))] = gt[PARENT.get(i.reg(1))]
+        if wflags:
+            self.tw_cf = None
         for d in defs:
             if d in gt and d not in new:
                 del gt[d]
